@@ -197,6 +197,13 @@ C04_RunningExact ==
   \A w \in DOMAIN wk \cap Workers : \A x \in wk[w].running :
      ~IsMn(x.rq) => \A r \in 1..NRes(w) : AllocAmount(x.alloc, r) = ReqAmount(x.rq, x.v, r, w)
 
+\* "when it ends everything it held becomes available again": on every worker, what is free plus what the running tasks hold
+\* is all there is (a resource that nobody holds is never missing from the pools)
+C04_Conserved ==
+  \A w \in DOMAIN wk \cap Workers : "free" \in DOMAIN wk[w] =>
+     \A r \in 1..NRes(w) : r <= Len(wk[w].free) =>
+        wk[w].free[r] + SumOver(wk[w].running, LAMBDA x : AllocAmount(x.alloc, r)) = srv[w].total[r]
+
 (* C05 - no overbooking, placement only where runnable *)
 C05_NoOverbook ==
   \A w \in Workers : srv[w].kind = "sn" =>
@@ -248,6 +255,12 @@ C08_Released ==
      /\ t \notin DOMAIN redirect
 C08_StopSent ==
   \A f \in fut : f.t \in DOMAIN cancelAck /\ f.w \in DOMAIN wk => CancelInFlight(f.w, f.t)
+\* "tasks of other jobs are unaffected", at rest: once a cancel was answered, a task of a job that was not canceled is never left
+\* behind in the core in a state it cannot leave (still being called back from a worker, assigned but never sent, ...)
+C08_OthersNotStuck ==
+  (Quiescent /\ DOMAIN cancelAck # {}) =>
+     \A t \in DOMAIN task : t \in AllTasks /\ tinfo[t].job \notin {tinfo[c].job : c \in DOMAIN cancelAck \cap AllTasks} =>
+        task[t].st = "W"      \* (whether a waiting task should have been dispatched is C02's business, not the cancel's)
 C08_NoDangling ==
   /\ \A rq \in DOMAIN queue : queue[rq].ready \subseteq DOMAIN task /\ queue[rq].pset \subseteq DOMAIN task
   /\ DOMAIN redirect \subseteq DOMAIN task
